@@ -363,8 +363,9 @@ Lemma rec_first_4 : forall h r, v1_hdr h -> is_hg (h_type h) = false -> rec_ok 4
   fold_left pstep (v1_record_lines 4 r) (SBody h) = W h 4 0 [fq h r] [pairs_of (map n_val (snd r))].
 Proof.
   intros h r Hh Hhg (Hx & Hpos & Hl & Hlen). unfold v1_record_lines.
-  change (4 =? 2) with false. cbv iota. change (2 * 4) with 8. rewrite !chunks_S.
-  cbn [flat_map]. rewrite !fold_left_app.
+  change (4 =? 2) with false. cbv iota. change (2 * 4) with 8.
+  rewrite (chunks_S _ 8 3), (chunks_S _ 8 2).
+  cbn [flat_map]. rewrite fold_left_app, (fold_left_app pstep (map wnum _ ++ [nl])).
   set (l := snd r) in *. change (2 * 4 * 4) with 32 in Hlen.
   assert (H1 : length (firstn 8 l) = 8) by (rewrite firstn_length; lia).
   assert (H2 : length (firstn 8 (skipn 8 l)) = 8) by (rewrite firstn_length, skipn_length; lia).
